@@ -7,6 +7,10 @@ Init == sidx \in 1..Len(Strings)
 Next == FALSE /\ UNCHANGED sidx
 Spec == Init /\ [][Next]_sidx
 IntJ(x) == [neg |-> x.neg, mag |-> x.mag]
+\* two string literals in one expression (and so on one source line): the sum of this string and the next one
+Nxt == (sidx % Len(Strings)) + 1
+Pair == Apply("+", <<StringValue(Strings[sidx]), StringValue(Strings[Nxt])>>)
 Emit == PrintT("@@L" \o ToJson([codes |-> Strings[sidx], v |-> IntJ(StringValue(Strings[sidx])),
+                                 codes2 |-> Strings[Nxt], pair |-> IntJ(Pair.v),
                                  escapes |-> EscapeTable]))
 =============================================================================
